@@ -24,7 +24,7 @@ KeyKinds ==
   \cup {Kind("EC", c, 0) : c \in EcCurves} \cup {Kind("OKP", c, 0) : c \in OkpCurves}
 \* use: "" (not declared) / sig / enc ; ops: none (not declared) / has (declares the needed operation) / lacks
 Key(kind, priv, use, ops) == [kind |-> kind, priv |-> priv, use |-> use, ops |-> ops]
-Keys == {Key(k, p, u, o) : k \in KeyKinds, p \in BOOLEAN, u \in {"", "sig", "enc"}, o \in {"none", "has", "lacks"}}
+Keys == {Key(k, p, u, o) : k \in KeyKinds, p \in BOOLEAN, u \in {"", "sig", "enc"}, o \in {"none", "has", "lacks", "empty"}}   \* empty: "key_ops": [] (declared, includes nothing)
 
 JwsPaths == {"compact", "flattened", "general", "7797compact", "7797json", "jwt"}
 JwePaths == {"compact", "flattened", "general"}
@@ -64,7 +64,7 @@ SizeOk(c) ==
          [] OTHER -> TRUE
 OpsOk(c) ==
   LET mode == IF c.side = "jws" THEN "jws" ELSE JweAlgOf(c.alg).mode
-  IN NeededOp(c.side, mode, c.op) # "" => c.key.ops # "lacks"
+  IN NeededOp(c.side, mode, c.op) # "" => c.key.ops \notin {"lacks", "empty"}
 PrivateOk(c) == (c.op = "produce" /\ c.side = "jws") \/ (c.op = "consume" /\ c.side = "jwe") => c.key.priv
 
 Suitable(c) == UseOk(c) /\ TypeOk(c) /\ CurveOk(c) /\ SizeOk(c) /\ OpsOk(c) /\ PrivateOk(c)
